@@ -255,7 +255,7 @@ impl TlDesc {
             b = timing(b);
         }
         if self.order % 4 == 3 {
-            b = b.duration_seconds(self.timing.cycle * 3.0 + 1.0).delay_seconds(5.0).reverse(!self.timing.reverse);
+            b = b.duration_seconds(self.timing.cycle * 3.0 + 1.0).delay_seconds(5.0).reverse(!self.timing.reverse).repeat(mina::Repeat::Times(5)).default_easing(mina::Easing::OutCirc);
         }
         for k in &self.kfs[..split] {
             b = b.keyframe(Self::build_kf(k));
